@@ -268,6 +268,13 @@ FC_NEST = [
     [('a', None), ('zz', None)],
     [('d/b', 'QB'), ('a', 'QB')],
     [('a', 'QB'), ('d', None), ('a', 'type file')],
+    # the same name several times ("the matchers are combined using &&, in order of appearance"):
+    # matcher then bare name, bare name then matcher, two matchers of which one fails, other spelling of the name
+    [('a', 'type dir'), ('a', None)],
+    [('a', 'QB'), ('a', None)],
+    [('a', None), ('a', 'QB')],
+    [('a', 'type file'), ('a', 'type dir')],
+    [('./a', 'QB'), ('d', 'type dir'), ('a', None), ('d', None)],
     [('./a', None), ('d//', None)],
     [('d/../a', None)],
     [('/abs', None)],
